@@ -927,3 +927,16 @@ V("c05e-continue-after-advance-free-loop", "C05", "silent",
 V("c05f-step-writes-interferometer", "C05", {"rule": "C05f", "contains": "uniform_loss|writes interferometer"},
   (PSTEPS, "    transmissivity = instruction._get_all_params(connector)[\"transmissivity\"]\n    modes = instruction.modes\n\n    _apply_matrix_on_modes(",
    "    transmissivity = instruction._get_all_params(connector)[\"transmissivity\"]\n    modes = instruction.modes\n\n    if len(modes) == state.d:\n        state.interferometer = transmissivity * state.interferometer\n        return [Branch(state=state)]\n\n    _apply_matrix_on_modes("))
+
+# --- shallow copy of a memoised object, attribute stores on its parts
+CLEM = "piquasso/decompositions/clements.py"
+V("c12d-memoised-template-shallow-copied", "C12", {"rule": "C12d", "contains": "get_decomposition_from_weights|attribute-store"},
+  (CLEM, "    decomposition = clements(fallback_np.identity(d), connector=NumpyConnector())\n\n    index = 0\n",
+   "    decomposition = copy.copy(_trivial_decomposition(d))\n\n    index = 0\n"),
+  (CLEM, "def get_decomposition_from_weights(", "@functools.lru_cache(maxsize=None)\ndef _trivial_decomposition(d):\n    return clements(NumpyConnector().fallback_np.identity(d), connector=NumpyConnector())\n\n\ndef get_decomposition_from_weights("),
+  (CLEM, "from typing import List, Tuple, TYPE_CHECKING\n", "import copy\nimport functools\nfrom typing import List, Tuple, TYPE_CHECKING\n"))
+V("c12d-memoised-template-deep-copied", "C12", "silent",
+  (CLEM, "    decomposition = clements(fallback_np.identity(d), connector=NumpyConnector())\n\n    index = 0\n",
+   "    decomposition = copy.deepcopy(_trivial_decomposition(d))\n\n    index = 0\n"),
+  (CLEM, "def get_decomposition_from_weights(", "@functools.lru_cache(maxsize=None)\ndef _trivial_decomposition(d):\n    return clements(NumpyConnector().fallback_np.identity(d), connector=NumpyConnector())\n\n\ndef get_decomposition_from_weights("),
+  (CLEM, "from typing import List, Tuple, TYPE_CHECKING\n", "import copy\nimport functools\nfrom typing import List, Tuple, TYPE_CHECKING\n"))
